@@ -227,6 +227,14 @@ fn judge_boot(rec: &Rec, total: u32, b: &[u8; 512]) -> Option<(String, String)> 
     if b[510] != 0x55 || b[511] != 0xAA {
         return Some(("C06/accepted/no-boot-signature".into(), format!("{rec:?} total {total}")));
     }
+    // BS_jmpBoot: EB xx 90 or E9 xx xx, and a short jump must land behind the parameter block
+    {
+        let bpb_end: usize = if g.width == 32 { 90 } else { 62 };
+        let ok = (b[0] == 0xEB && b[2] == 0x90 && 2 + b[1] as usize >= bpb_end && 2 + (b[1] as usize) < 510) || b[0] == 0xE9;
+        if !ok {
+            return Some(("C06/accepted/boot-jump-invalid".into(), format!("{rec:?} total {total}: {:02x?}", &b[0..3])));
+        }
+    }
     // "each table can address every cluster": FAT32 cluster numbers from 0x0FFFFFF7 on are the bad-cluster mark and
     // the end-of-chain range, so the highest cluster number (count + 1) must stay below
     if g.width == 32 && g.clusters > 0x0FFF_FFF5 {
@@ -379,13 +387,8 @@ fn judge_full_mode(rec: &Rec, total: u32, mode: Mode, ok_count: &AtomicU64) -> O
     if mode.auto_size_extra.is_some() && g.total_sectors != total as u64 {
         return Some(("C06/accepted/size-not-taken-from-storage".into(), format!("{ctx}: storage holds {total} whole sectors, volume declares {}", g.total_sectors)));
     }
-    let tot = g.fat_entries_total();
-    let pad_hi = tot.min(g.clusters + 2 + 4096);
-    for c in (g.clusters + 2)..pad_hi {
-        if f.get(c as u32) == 0 {
-            return Some(("C06/accepted/padding-entry-free".into(), format!("{ctx}: entry {c} past the last cluster is free")));
-        }
-    }
+    // (what the entries behind the last cluster hold is not prescribed: zero is what the specification asks of a
+    // formatter, the library writes end-of-chain marks; C10 checks that they are never handed out)
     if g.fat_bytes() <= 8 << 20 {
         let c0 = s.read_vec(g.fat_off(0), g.fat_bytes() as usize);
         for c in 1..g.nfats {
@@ -411,7 +414,8 @@ fn judge_full_mode(rec: &Rec, total: u32, mode: Mode, ok_count: &AtomicU64) -> O
             return Some(("C06/accepted/backup-boot-differs".into(), ctx));
         }
         match decoder::fsinfo(&s, &g) {
-            Some((true, true, true, free, next)) if free as u64 == g.clusters - 1 && next == 3 => {}
+            // (the next-free hint is a hint: unknown, or any cluster number of the volume)
+            Some((true, true, true, free, next)) if free as u64 == g.clusters - 1 && (next == 0xFFFF_FFFF || (next >= 2 && next as u64 <= g.clusters + 1)) => {}
             other => return Some(("C06/accepted/fsinfo".into(), format!("{ctx}: {other:?}"))),
         }
     }
@@ -465,6 +469,9 @@ pub fn run(tier: &str) -> i32 {
             let mut full_budget = if th { 40 } else { 10 };
             // volumes between 64 MiB and 1 GiB (the smallest FAT32 volumes with clusters larger than a sector)
             let mut big_budget = if th { 6 } else { 2 };
+            // one FAT16 and one FAT32 volume per record also on short-transferring storages
+            let mut short_w16 = 1;
+            let mut short_w32 = 1;
             for &t in &szs {
                 evals.fetch_add(1, Ordering::Relaxed);
                 let r = hook(rec, t);
@@ -495,12 +502,17 @@ pub fn run(tier: &str) -> i32 {
                         let do_full = bytes <= 2 << 20
                             || (bytes <= 64 << 20 && full_budget > 0 && { full_budget -= 1; true })
                             || (bytes > 64 << 20 && bytes <= 1 << 30 && big_budget > 0 && { big_budget -= 1; true });
+                        if do_full && Instant::now() >= deadline {
+                            capped.fetch_add(1, Ordering::Relaxed);
+                        }
                         if do_full && Instant::now() < deadline {
                             if let Some(x) = judge_full_mode(rec, t, EXACT, &fulls) {
                                 v.push(x);
                             }
                             // the smallest volumes also on storages that accept only part of each transfer
-                            if bytes <= 512 << 10 {
+                            let w = decoder::parse_raw(&b).map(|g| g.width).unwrap_or(0);
+                            let extra_short = bytes > 512 << 10 && ((w == 16 && short_w16 > 0 && { short_w16 -= 1; true }) || (w == 32 && short_w32 > 0 && { short_w32 -= 1; true }));
+                            if bytes <= 512 << 10 || extra_short {
                                 for short in [Short::Always, Short::Block(7)] {
                                     if let Some(x) = judge_full_mode(rec, t, Mode { short, auto_size_extra: None }, &fulls_short) {
                                         v.push(x);
@@ -548,7 +560,17 @@ pub fn run(tier: &str) -> i32 {
         }
         h
     };
-    let huge_res: Vec<Option<(String, String)>> = huge.par_iter().map(|(r, t)| if Instant::now() < deadline { judge_full_mode(r, *t, EXACT, &fulls) } else { None }).collect();
+    let huge_res: Vec<Option<(String, String)>> = huge
+        .par_iter()
+        .map(|(r, t)| {
+            if Instant::now() < deadline {
+                judge_full_mode(r, *t, EXACT, &fulls)
+            } else {
+                capped.fetch_add(1, Ordering::Relaxed);
+                None
+            }
+        })
+        .collect();
     for x in huge_res.into_iter().flatten() {
         all.entry(x.0).or_insert((x.1, 0)).1 += 1;
     }
@@ -572,6 +594,7 @@ pub fn run(tier: &str) -> i32 {
             .par_iter()
             .map(|(r, t, extra)| {
                 if Instant::now() > deadline {
+                    capped.fetch_add(1, Ordering::Relaxed);
                     return None;
                 }
                 match hook(r, *t) {
@@ -687,7 +710,7 @@ pub fn run(tier: &str) -> i32 {
         "formats_with_size_taken_from_storage": fulls_auto.load(Ordering::Relaxed),
         "rejected_requests_replayed_on_format_volume": rejected_real.load(Ordering::Relaxed),
         "outcome_classes": classes,
-        "records_skipped_by_deadline": ncap,
+        "records_or_full_formats_skipped_by_deadline": ncap,
         "full_range_sweeps": sweep,
         "technique": "bounded-exhaustive enumeration of the format-option grid on the real crate, judged by the independent geometry parser / decoder",
     });
